@@ -159,6 +159,48 @@ async fn vf_tail_block_is_complete() {
 }
 
 #[tokio::test(flavor = "multi_thread", worker_threads = 4)]
+async fn vf_tail_blocks_do_not_interleave() {
+    // C20: tasks flush onto ONE shared connection concurrently; whatever the interleaving of the flushes, each block - a header and the
+    // lines of that flush - arrives contiguous (per header, the blocks reassemble to what the task sent; no foreign line inside a block)
+    let listener = tokio::net::TcpListener::bind("127.0.0.1:0").await.unwrap();
+    let port = listener.local_addr().unwrap().port() as usize;
+    let srv = tokio::spawn(async move {
+        let (mut sock, _) = listener.accept().await.unwrap();
+        sock.write_all(b"{\"commands\":[],\"targets\":[],\"include_stdout\":true,\"include_stderr\":true}\n").await.unwrap();
+        // a listener that reads in small sips: the writers meet a full socket buffer and yield in the middle of their flushes
+        let mut all = vec![]; let mut chunk = vec![0u8; 8192];
+        loop { match tokio::io::AsyncReadExt::read(&mut sock, &mut chunk).await { Ok(0) | Err(_) => break, Ok(n) => { all.extend_from_slice(&chunk[..n]); tokio::time::sleep(std::time::Duration::from_micros(300)).await; } } }
+        all
+    });
+    let cfg: server::LogServerConfig = serde_json::from_str(&format!("{{\"host\":\"127.0.0.1\",\"port\":{}}}", port)).unwrap();
+    let lsc = LogServerClient::connect(&cfg).await.unwrap();
+    let (tasks, batches, per) = (6usize, 25usize, 120usize);
+    let mut hs = vec![];
+    for k in 0..tasks {
+        let mut c = lsc.clone();
+        hs.push(tokio::spawn(async move {
+            let header = format!("[monorail | stdout | task{} | build]\n", k);
+            for b in 0..batches {
+                let lines: Vec<Vec<u8>> = (0..per).map(|i| format!("task{} batch{} line{} {}\n", k, b, i, "z".repeat(40 + (i * 7 + k) % 60)).into_bytes()).collect();
+                let _ = c.data(Arc::new(lines), header.as_bytes()).await;
+            }
+        }));
+    }
+    for h in hs { let _ = h.await; }
+    drop(lsc);
+    let got = String::from_utf8_lossy(&srv.await.unwrap()).into_owned();
+    let (mut cur, mut foreign, mut counts): (Option<usize>, usize, Vec<usize>) = (None, 0, vec![0; tasks]);
+    for line in got.lines() {
+        if let Some(rest) = line.strip_prefix("[monorail | stdout | task") { if let Some(k) = rest.split(' ').next().and_then(|x| x.parse::<usize>().ok()) { cur = Some(k); continue; } }
+        if let Some(rest) = line.strip_prefix("task") { if let Some(k) = rest.split(' ').next().and_then(|x| x.parse::<usize>().ok()) { if k < tasks { counts[k] += 1; if cur != Some(k) { foreign += 1; } } } }
+    }
+    let complete = counts.iter().all(|c| *c == batches * per);
+    let bad = if foreign == 0 && complete { 0 } else { 1 };
+    if bad == 1 { println!("VF-FAIL {} tasks flushing {} batches of {} lines each onto one shared listener connection :: {} line(s) arrived under another task's header (lines received per task {:?}, sent {}); a block must stay contiguous (C20)", tasks, batches, per, foreign, counts, batches * per); }
+    println!("VF-SUMMARY test=tail_blocks_do_not_interleave checked=1 nontrivial=1 bad={}", bad);
+}
+
+#[tokio::test(flavor = "multi_thread", worker_threads = 4)]
 async fn vf_reader_with_listener() {
     // C08 / C15: what is stored does not depend on a listener being attached, slow, or gone - also for output without a trailing newline;
     // C20: per header, the blocks a (possibly slow) listener receives reassemble to the stored log of newline-terminated text
